@@ -97,6 +97,10 @@ pub struct Expand {
     pub bigs: Vec<(u32, u32)>,
     /// vary frame shapes (false: the simplest one-unit frames, for the very long cases)
     pub shapes: bool,
+    /// Some((n, v, a)): the first n video / audio samples all have the shapes v / a (a uniform warm-up: one start-code style,
+    /// one ADTS header), the samples after them vary
+    #[serde(default)]
+    pub uniform: Option<(u32, u8, u8)>,
 }
 
 impl ValidCase {
@@ -115,12 +119,37 @@ impl ValidCase {
                 cts: if i >= e.reorder_from { cts_pat[(i % 4) as usize] * e.vd as i64 } else { 0 },
                 key: e.key_every > 0 && i % e.key_every == 0,
                 size: e.vsize,
-                shape: if e.shapes { (i.wrapping_mul(37) % 256) as u8 } else { 0 },
+                shape: match e.uniform {
+                    Some((n, v, _)) if i < n => v,
+                    _ => {
+                        if e.shapes {
+                            (i.wrapping_mul(37) % 256) as u8
+                        } else {
+                            0
+                        }
+                    }
+                },
                 jit: 0,
                 big: e.bigs.iter().find(|b| b.0 == i).map(|b| b.1).unwrap_or(0),
             })
             .collect();
-        c.audio = (0..e.na).map(|i| AGene { dpts: e.ad, size: e.asize, shape: if e.shapes { (i.wrapping_mul(29) % 256) as u8 } else { 1 }, jit: 0 }).collect();
+        c.audio = (0..e.na)
+            .map(|i| AGene {
+                dpts: e.ad,
+                size: e.asize,
+                shape: match e.uniform {
+                    Some((n, _, a)) if i < n => a,
+                    _ => {
+                        if e.shapes {
+                            (i.wrapping_mul(29) % 256) as u8
+                        } else {
+                            1
+                        }
+                    }
+                },
+                jit: 0,
+            })
+            .collect();
         c.const_rate = None;
         c.fps_mode = None;
         c.reorder = e.reorder_from != u32::MAX;
@@ -128,10 +157,10 @@ impl ValidCase {
     }
 }
 
-pub const LONG_NOTE: &str = "fixed list of long / large recordings (compact `expand` descriptions): 1 100, 2 200, 2 100 (reordering starts at \
-     sample 2 060), 20 000, 36 000, 70 000 video samples; 27 000 + 42 188 A/V samples with ties; 70 000 audio samples; single samples of 1 MiB + 1, \
-     1.25 MiB, 1.5 MiB + 17, 2 MB, 2.5 MiB, 3 MiB at first / middle / last position, video-only and A/V, both layouts; a recording that crosses \
-     2^39 ticks; thorough tier: 1 048 700 video samples with audio ties after sample 2^20";
+pub const LONG_NOTE: &str = "fixed list of long / large recordings (compact `expand` descriptions): 1 100, 2 048, 2 200, 2 100 (reordering starts at \
+     sample 2 060), 4 096, 20 000, 36 000, 70 000 video samples; 27 000 + 42 188 A/V samples with ties; 70 000 audio samples; single samples of 1 MiB + 1, \
+     1.25 MiB, 1.5 MiB + 17, 2 MB, 2.5 MiB, 3 MiB, 4 MiB - 3, 4 MiB, 4 MiB + 5, 8 MiB + 3, 16 MiB + 1 at first / middle / last position, video-only and A/V, both layouts; uniform warm-ups of 600 .. 1 500 frames followed by frames of every shape; recordings that cross \
+     2^33 / 2^39 / 2^50 ticks or carry Unix-epoch timestamps; thorough tier: 1 048 700 video samples with audio ties after sample 2^20";
 
 fn long_cfg(codec: u8, audio: u8, fast_start: bool) -> CfgGene {
     CfgGene {
@@ -156,7 +185,7 @@ fn long_case(cfg: CfgGene, v_start: u64, a_off: u32, order: u8, e: Expand) -> Va
 
 /// Long and large recordings (counts and sizes the random histories do not reach).  `huge`: also the > 2^20-sample recording.
 pub fn long_cases(huge: bool) -> Vec<ValidCase> {
-    let ex = |nv: u32, na: u32| Expand { nv, na, vd: 3000, ad: 1920, vsize: 19, asize: 17, reorder_from: u32::MAX, key_every: 30, irregular_every: 0, bigs: vec![], shapes: true };
+    let ex = |nv: u32, na: u32| Expand { nv, na, vd: 3000, ad: 1920, vsize: 19, asize: 17, reorder_from: u32::MAX, key_every: 30, irregular_every: 0, bigs: vec![], shapes: true, uniform: None };
     let mut v = vec![
         long_case(long_cfg(0, 0, true), 0, 0, 0, ex(1100, 0)),
         long_case(long_cfg(1, 0, false), 9000, 0, 0, Expand { irregular_every: 7, ..ex(2200, 0) }),
@@ -174,9 +203,26 @@ pub fn long_cases(huge: bool) -> Vec<ValidCase> {
         long_case(long_cfg(3, 0, true), 0, 0, 0, Expand { bigs: vec![(1, 1_048_577), (2, 2_621_440)], ..ex(3, 0) }),
         long_case(long_cfg(0, 3, false), 0, 0, 5, Expand { bigs: vec![(4, 2_000_000)], ..ex(8, 12) }),
         long_case(long_cfg(1, 0, true), 0, 0, 0, Expand { bigs: vec![(8, 1_048_576 - 4)], ..ex(9, 0) }),
+        // a long uniform warm-up (one start-code style, one ADTS header form), then frames of every other shape
+        long_case(long_cfg(0, 1, true), 0, 0, 1, Expand { uniform: Some((1500, 1, 1)), ..ex(1600, 1600) }),
+        long_case(long_cfg(1, 2, false), 0, 0, 5, Expand { uniform: Some((1100, 0, 0)), ..ex(1200, 1200) }),
+        long_case(long_cfg(0, 1, false), 0, 0, 1, Expand { uniform: Some((600, 129, 0)), key_every: 1, ..ex(700, 700) }),
+        // single samples at the next powers of two (4, 8, 16 MiB), never the first sample of the file
+        long_case(long_cfg(0, 1, true), 0, 0, 1, Expand { bigs: vec![(2, (4 << 20) + 5)], ..ex(5, 6) }),
+        long_case(long_cfg(3, 0, false), 0, 0, 0, Expand { bigs: vec![(1, (4 << 20) - 3), (3, 4 << 20)], ..ex(5, 0) }),
+        long_case(long_cfg(1, 7, false), 0, 0, 5, Expand { bigs: vec![(3, (8 << 20) + 3)], ..ex(6, 6) }),
+        long_case(long_cfg(2, 0, true), 0, 0, 0, Expand { bigs: vec![(1, (16 << 20) + 1)], ..ex(4, 0) }),
+        // sample counts that are exact powers of two / multiples of 1024 (the other lengths are "one more")
+        long_case(long_cfg(0, 0, true), 0, 0, 0, ex(2048, 0)),
+        long_case(long_cfg(1, 0, false), 0, 0, 0, ex(4096, 0)),
+        long_case(long_cfg(3, 0, true), 0, 0, 0, Expand { shapes: false, ..ex(65_536, 0) }),
+        long_case(long_cfg(0, 2, false), 0, 0, 1, ex(1024, 2048)),
         // a recording that crosses 2^39 ticks of the media clock (absolute / uptime-based timestamps)
         long_case(long_cfg(0, 1, true), (1u64 << 39) - 45_000, 0, 1, ex(60, 90)),
         long_case(long_cfg(1, 7, false), (1u64 << 33) - 4_500, 0, 1, ex(40, 40)),
+        // wall-clock (Unix epoch) timestamps: 1.79e9 s = 1.6e14 ticks, and a start just below 2^50 ticks
+        long_case(long_cfg(0, 1, false), 1_790_000_000u64 * 90_000, 0, 1, ex(30, 45)),
+        long_case(long_cfg(2, 0, true), (1u64 << 50) - 6_000, 0, 0, ex(12, 0)),
     ];
     if huge {
         // more than 2^20 video samples; the audio starts after video sample 2^20 and every audio sample ties with a video sample
@@ -259,7 +305,8 @@ pub fn ccfg(g: &CfgGene) -> CCfg {
         empty_metadata: false,
         alias_builder: false,
         // a third of the configurations set things twice (decoy first, real value last), see CCfg::reconfig
-        reconfig: if (g.width as u32 + g.height as u32) % 3 == 0 { (g.width % 16) as u8 } else { 0 },
+        misalign: 0,
+        reconfig: (if (g.width as u32 + g.height as u32) % 3 == 0 { (g.width % 16) as u8 } else { 0 }) | ((g.height % 6) as u8) << 4,
     }
 }
 
@@ -491,6 +538,7 @@ pub fn lower(c: &ValidCase) -> Lowered {
     let mut vdata: Vec<Vec<u8>> = Vec::new();
     let mut dts = c.v_start;
     let mut reordered = false;
+    let nojit = c.v_start >= (1u64 << 44);
     for (i, g) in c.video.iter().enumerate() {
         if i > 0 {
             let d = c.const_rate.unwrap_or(g.ddts).max(1) as u64;
@@ -503,8 +551,17 @@ pub fn lower(c: &ValidCase) -> Lowered {
         } else {
             let cts = if c.reorder { g.cts } else { 0 };
             let pts_tick = if cts >= 0 { dts + cts as u64 } else { dts.saturating_sub((-cts) as u64) };
-            let ds = secs(dts, g.jit);
-            let ps = if pts_tick == dts { ds } else { secs(pts_tick, g.jit) };
+            // beyond 2^44 ticks an f64 second count no longer resolves a jittered tick: exact ticks only there
+            let jit = if nojit { 0 } else { g.jit };
+            let ds = secs(dts, jit);
+            let ps = if pts_tick != dts {
+                secs(pts_tick, jit)
+            } else if g.shape & 0x20 != 0 && !nojit {
+                // same tick, but not the same f64 (pts and dts computed in two ways by the caller)
+                secs(pts_tick, if jit > 0 { jit - 1 - (g.shape % 7) as i8 } else { jit + 1 + (g.shape % 7) as i8 })
+            } else {
+                ds
+            };
             (ds, ps, dts, pts_tick, false)
         };
         if pts_t != dts_t {
@@ -540,15 +597,17 @@ pub fn lower(c: &ValidCase) -> Lowered {
     let mut adata: Vec<Vec<u8>> = Vec::new();
     if has_audio && !vexp.is_empty() {
         let v0_pts = vexp[0].pts;
-        let v0_jit = if c.fps_mode.is_some() { None } else { Some(c.video[0].jit) };
+        let v0_jit = if c.fps_mode.is_some() { None } else { Some(if nojit { 0 } else { c.video[0].jit }) };
         let mut pts = v0_pts + c.a_off as u64;
         let mut prev_jit: i8 = 0;
         for (i, g) in c.audio.iter().enumerate() {
             if i > 0 {
                 pts += g.dpts as u64;
             }
-            let mut jit = g.jit;
-            if i > 0 && g.dpts == 0 {
+            let mut jit = if nojit { 0 } else { g.jit };
+            if nojit {
+                // exact ticks only (see above)
+            } else if i > 0 && g.dpts == 0 {
                 // same tick as the previous audio frame: either the very same f64, or (half of the cases) a strictly later
                 // instant less than one tick away, e.g. a backlog stamped with a fine-grained clock
                 jit = if g.shape & 0x40 != 0 && prev_jit < 49 { (prev_jit + 1 + (g.shape % 5) as i8).min(49) } else { prev_jit };
@@ -737,6 +796,17 @@ pub fn title_strategy() -> impl Strategy<Value = String> {
         1 => "[a-z ]{200,400}",
         // dictionary: a box type inside the title (a byte search for a fourcc in the moov must not hit it)
         1 => ("[ -~]{0,12}", 0usize..48, "[ -~]{0,12}").prop_map(|(a, i, b)| format!("{}{}{}", a, String::from_utf8_lossy(&FOURCC_DICT[i][..]), b)),
+        // dictionary: code points that text handling likes to "clean up" (byte order mark, zero-width and bidi marks, NUL, white
+        // space at the ends, replacement character, the last code points of the planes, combining marks), at the start / end / alone
+        2 => (0usize..16, "\\PC{0,10}", 0u8..4).prop_map(|(i, body, place)| {
+            let sp = ['\u{feff}', '\u{200b}', '\u{202e}', '\u{0}', ' ', '\t', '\n', '\u{a0}', '\u{fffd}', '\u{ffff}', '\u{10ffff}', '\u{301}', '\u{d7ff}', '\u{e000}', '"', '\\'][i];
+            match place {
+                0 => format!("{}{}", sp, body),
+                1 => format!("{}{}", body, sp),
+                2 => format!("{}{}{}", sp, body, sp),
+                _ => sp.to_string(),
+            }
+        }),
     ]
 }
 
@@ -981,10 +1051,15 @@ pub fn valid_case_strategy(maxv: usize, maxa: usize) -> impl Strategy<Value = Va
                     for g in c.video.iter_mut() {
                         g.ddts = d;
                     }
+                    // audio: the same step, or (half of the cases) the codec's nominal frame duration for the configured rate
+                    // (1024 samples of AAC, 20 ms of Opus) so that the timeline sits exactly on the frame grid at both ends
+                    let rate = AAC_RATES[(c.cfg.rate_idx % 13) as usize] as u64;
+                    let nominal = if c.cfg.audio % 8 == 7 { 1800 } else { (1024 * 90_000 / rate) as u32 };
+                    let da = if r & 0x80 != 0 { nominal.max(2) } else { d };
                     for g in c.audio.iter_mut() {
-                        g.dpts = d;
+                        g.dpts = da;
                     }
-                    let k = 1 + (r >> 16) % (d / 2);
+                    let k = 1 + (r >> 16) % (d.min(da) / 2);
                     let nv = c.video.len();
                     if nv >= 5 {
                         let i = 2 + (rng.next_u32() as usize) % (nv - 4);
@@ -994,8 +1069,8 @@ pub fn valid_case_strategy(maxv: usize, maxa: usize) -> impl Strategy<Value = Va
                     let na = c.audio.len();
                     if na >= 5 {
                         let i = 2 + (rng.next_u32() as usize) % (na - 4);
-                        c.audio[i].dpts = d - k;
-                        c.audio[i + 1].dpts = d + k;
+                        c.audio[i].dpts = da - k;
+                        c.audio[i + 1].dpts = da + k;
                     }
                 }
                 // dictionary: timestamps whose bytes spell a box type (a byte search for a fourcc must not hit them)
@@ -1003,9 +1078,9 @@ pub fn valid_case_strategy(maxv: usize, maxa: usize) -> impl Strategy<Value = Va
                     let magic = FOURCC_DICT[(r as usize >> 8) % FOURCC_DICT.len()];
                     c.v_start = u32::from_be_bytes(*magic) as u64;
                 } else if r % 100 >= 93 {
-                    // the recording straddles a power of two of the media clock (2^32 .. 2^44 ticks): arithmetic that keeps only
+                    // the recording straddles a power of two of the media clock (2^32 .. 2^51 ticks): arithmetic that keeps only
                     // the low bits of a timestamp, or packs it with other fields, goes wrong exactly there
-                    let k = 32 + (r >> 8) % 13; // up to 2^44: beyond that an f64 second count no longer resolves the jittered tick
+                    let k = 32 + (r >> 8) % 20; // 2^32 .. 2^51; from 2^44 on the timestamps are exact ticks without jitter (see `lower`)
                     let back = [1u64, 2, 1500, 3000, 4500, 9000, 90_000, 200_000][(r as usize >> 16) % 8];
                     c.v_start = (1u64 << k) - back;
                 }
